@@ -158,7 +158,7 @@ impl<'a> Gen<'a> {
     fn vars_of(&self, k: usize) -> Vec<usize> { (0..self.kinds.len()).filter(|i| self.kinds[*i] == k && !self.counters.contains(i) && !self.loop_vars.contains(i)).collect() }
     fn boundary(&mut self, k: usize) -> i128 {
         let (lo, hi) = (kmin(k), kmax(k));
-        match self.rng.below(16) { 0 => lo, 1 => hi, 2 => hi - 1, 3 => lo + 1, 4 => 0, 5 | 6 => 1, 7 => 2, _ => (self.rng.range(-20, 20) as i128).clamp(lo, hi) }
+        match self.rng.below(16) { 0 => lo, 1 => hi, 2 => hi - 1, 3 => lo + 1, 4 => 0, 5 | 6 => 1, 7 => 2, 8 | 9 => if lo < 0 { -1 } else { 1 }, _ => (self.rng.range(-20, 20) as i128).clamp(lo, hi) }
     }
     fn int_expr(&mut self, k: usize, depth: u32, allow_pure: bool) -> Expr {
         let vars = self.vars_of(k);
@@ -168,7 +168,9 @@ impl<'a> Gen<'a> {
             if c < 5 && !vars.is_empty() { return Expr::Var(*self.rng.pick(&vars)); }
             if c < 7 || !allow_pure || self.strict {
                 if !allow_pure && !vars.is_empty() && self.rng.chance(1, 2) { return Expr::Var(*self.rng.pick(&vars)); }
-                let v = self.boundary(k).clamp(-(i64::MAX as i128), i64::MAX as i128); return Expr::Lit(false, k, v);
+                let v = self.boundary(k);
+                if v < -(i64::MAX as i128) { return Expr::Bin(1, Box::new(Expr::Lit(false, k, v + 1)), Box::new(Expr::Lit(false, k, 1))); }
+                return Expr::Lit(false, k, v.min(i64::MAX as i128));
             }
             // untyped literal: fits DINT and the kind
             let v = self.boundary(k).clamp(0, kmax(2)).clamp(0, kmax(k));
@@ -307,7 +309,7 @@ fn fault_code(e: &RuntimeError) -> u8 {
         RuntimeError::InvalidControlFlow => 8, RuntimeError::UndefinedVariable(_) => 9, _ => 11,
     }
 }
-fn run(kinds: &[usize], body: &[Stmt], cycles: &[Vec<(usize, i128)>]) -> String {
+fn run_inner(kinds: &[usize], body: &[Stmt], cycles: &[Vec<(usize, i128)>]) -> String {
     let src = source(kinds, body);
     let mut h = match TestHarness::from_source(&src) { Ok(h) => h, Err(e) => return format!(" 20 {}", format!("{e:?}").replace(' ', "_").replace(':', ";")) };
     let pid = match h.runtime().storage().get_global("Main") { Some(Value::Instance(id)) => *id, _ => return " 20 no-instance".into() };
@@ -327,6 +329,20 @@ fn run(kinds: &[usize], body: &[Stmt], cycles: &[Vec<(usize, i128)>]) -> String 
         }
     }
     out
+}
+
+/// runs one case on its own thread; a case that does not finish within the limit is reported as outcome 30 and the
+/// process stops after flushing (the stuck thread cannot be cancelled)
+static TIMED_OUT: std::sync::atomic::AtomicBool = std::sync::atomic::AtomicBool::new(false);
+fn run(kinds: &[usize], body: &[Stmt], cycles: &[Vec<(usize, i128)>]) -> String {
+    let (tx, rx) = std::sync::mpsc::channel();
+    let (k2, b2, c2) = (kinds.to_vec(), body.to_vec(), cycles.to_vec());
+    std::thread::Builder::new().stack_size(64 << 20).spawn(move || { let _ = tx.send(run_inner(&k2, &b2, &c2)); }).expect("spawn");
+    let limit = std::env::var("VERIF_CASE_TIMEOUT_S").ok().and_then(|s| s.parse().ok()).unwrap_or(20u64);
+    match rx.recv_timeout(std::time::Duration::from_secs(limit)) {
+        Ok(s) => s,
+        Err(_) => { TIMED_OUT.store(true, std::sync::atomic::Ordering::SeqCst); " 30".to_string() }
+    }
 }
 
 fn fmt_line(id: &str, kinds: &[usize], body: &[Stmt], cycles: &[Vec<(usize, i128)>], obs: &str) -> String {
@@ -357,7 +373,10 @@ fn main() {
             if std::env::var("VERIF_SHOW_SRC").is_ok() { eprintln!("{}", source(&kinds, &body)); }
             let obs = run(&kinds, &body, &cycles);
             writeln!(out, "{}", fmt_line(parts[0].trim(), &kinds, &body, &cycles, &obs)).unwrap();
+            if TIMED_OUT.load(std::sync::atomic::Ordering::SeqCst) { break; }
         }
+        out.flush().unwrap();
+        if TIMED_OUT.load(std::sync::atomic::Ordering::SeqCst) { std::process::exit(0); }
         return;
     }
     let count: usize = args.get(1).and_then(|s| s.parse().ok()).unwrap_or(100);
@@ -381,5 +400,8 @@ fn main() {
         }).collect();
         let obs = run(&kinds, &body, &cycles);
         writeln!(out, "{}", fmt_line(&format!("{}{id}", if wild { "w" } else if strict { "s" } else { "c" }), &kinds, &body, &cycles, &obs)).unwrap();
+        if TIMED_OUT.load(std::sync::atomic::Ordering::SeqCst) { break; }
     }
+    out.flush().unwrap();
+    if TIMED_OUT.load(std::sync::atomic::Ordering::SeqCst) { std::process::exit(0); }
 }
